@@ -9,7 +9,9 @@
    patch at any offset, commit), CreateCacheFile, backend refreshes with any Stat size, any byte
    stream on the first and on the second download attempt, any outcome of the memory reservation
    (= any capacity), drain iterations at any point with or without the disk accepting the write,
-   clock ticks, TTL expiry, delete and overwrite-metainfo. *)
+   clock ticks, TTL expiry, delete and overwrite-metainfo.  race_free ops = no PATCH is still
+   delivering its body while its own upload is committed (the property's schedules are the timings
+   of the drain; what happens otherwise is C01_late_patch_refuted, known finding C01-late-patch). *)
 From Coq Require Import List NArith ZArith Bool.
 From K.Model Require Import C01.
 From K.Proof Require C01_thm C01_wit.
@@ -19,7 +21,7 @@ Local Open Scope N_scope.
 (* clause 1: after any history, whatever a reader obtains under a name — data, size, torrent
    metainfo, from a memory entry or from the cache dir — belongs to bytes that hash to the name *)
 Theorem C01_readable_hashes : forall (H : bytes -> N) (cf : cfg) (ops : list (op bytes)) (name : N),
-  c_skip cf = false -> c_memverify cf = true ->
+  c_skip cf = false -> c_memverify cf = true -> race_free ops = true ->
   let v := view_of (exec H cf init ops) name in
   (forall c, v_data v = Some c -> H c = name) /\
   (forall k, v_size v = Some k -> exists c, v_data v = Some c /\ H c = name /\ k = len c) /\
@@ -57,7 +59,7 @@ Print Assumptions C01_readable_hashes_atomic.
 (* the API-level model (the one executed against the real code) is refined by the atomic-step
    system: every reachable API-level state is reached by atomic steps, with the same views *)
 Theorem C01_api_refines_atomic : forall (H : bytes -> N) (cf : cfg) (ops : list (op bytes)),
-  c_skip cf = false -> c_memverify cf = true ->
+  c_skip cf = false -> c_memverify cf = true -> race_free ops = true ->
   exists l : list aop,
     let a := arun H cf ainit l in let s := exec H cf init ops in
     a_disk a = disk s /\ a_mem a = mem s /\ forall name, aview a name = view_of s name.
@@ -66,7 +68,7 @@ Print Assumptions C01_api_refines_atomic.
 
 (* executable form used on observed traces, and what it means for one observed view *)
 Theorem C01_check_sound : forall (H : bytes -> N) (cf : cfg) (names : list N) (ops : list (op bytes)),
-  c_skip cf = false -> c_memverify cf = true ->
+  c_skip cf = false -> c_memverify cf = true -> race_free ops = true ->
   C01_check H cf names ops (snd (run H cf names init ops)) = true.
 Proof. exact Proof.C01_thm.check_sound. Qed.
 Print Assumptions C01_check_sound.
@@ -88,6 +90,16 @@ Theorem C01_mem_path_refuted :
     H c <> name.
 Proof. exact Proof.C01_wit.mem_path_refuted. Qed.
 Print Assumptions C01_mem_path_refuted.
+
+(* outside race_free: a PATCH that opened the upload file before the commit and delivers its body
+   after it writes into the committed file — fixed code, verification on, every call returned success *)
+Theorem C01_late_patch_refuted :
+  exists (H : bytes -> N) (cf : cfg) (ops : list (op bytes)) (name : N) (c : bytes),
+    c_skip cf = false /\ c_memverify cf = true /\ race_free ops = false /\
+    snd (run H cf [] init ops) = [(OOk, [], []); (OOk, [], []); (OOk, [], [])] /\
+    v_data (view_of (exec H cf init ops) name) = Some c /\ H c <> name.
+Proof. exact Proof.C01_wit.late_patch_refuted. Qed.
+Print Assumptions C01_late_patch_refuted.
 
 (* SkipHashVerification is an opt-out: with it the property does not hold (by design) *)
 Theorem C01_skip_refuted :
@@ -114,6 +126,7 @@ Proof. vm_compute. reflexivity. Qed.
    cache dir (with metainfo) after rejecting a corrupted refresh; the hypothesis of clause 2 is met
    by each kind of mismatching write and not by a matching one *)
 Example C01_nonvacuous_history :
+  race_free Proof.C01_wit.ops_nonvac = true /\
   map (view_of (exec Proof.C01_wit.Hw Proof.C01_wit.cf_fixed init Proof.C01_wit.ops_nonvac)) [1; 2] =
     [ mkview (Some [10; 11; 12; 13]) (Some 4) (Some (1, [10; 11; 12; 13], 4%Z));
       mkview (Some [20; 21]) (Some 2) (Some (2, [20; 21], 4%Z)) ] /\
